@@ -147,7 +147,7 @@ def base_value_error(nd: tg.Node, v: t.Any, x: t.Any, path: str = '$', depth: in
         (base, get) = _BASEVAL[nd.name]
         if isinstance(v, base) and type(v) is not base and type(v) is not bool and type(x) is base:
             want = get(v)
-            if x != want:
+            if x != want and not (x != x and want != want):      # (NaN carries NaN)
                 return f"{path}: {type(v).__name__} instance {v!r} carrying {want!r} was converted to {x!r}"
         return None
     if isinstance(nd, (tg.Ann, tg.TypeVarN)) and not isinstance(getattr(nd, 'inner', None), tg.Union):
